@@ -115,6 +115,10 @@ def small_variants(tier: str) -> List[Dict[str, Any]]:
     pv = _v("local", "local", ["one"], "from", 0.25)
     pv["path_vars"] = True
     v.append(pv)
+    # plain calls written inside keyword-argument values of a non-accepted helper
+    wv = _v("local", "local", ["one"], "from", 0.5)
+    wv["kw_wrap"] = True
+    v.append(wv)
     # helpers realised as classes with a method
     kv = _v("local", "local", ["split"], "from", 0.25)
     kv["klass"] = "split"
@@ -375,6 +379,8 @@ def run_family(prop: str, tier: str) -> int:
                 s2.real["plain_refs"] = True
             if v.get("inline"):
                 s2.real["inline_call_args"] = True
+            if v.get("kw_wrap"):
+                s2.real["kw_wrap"] = True
             if v.get("accept_form"):
                 s2.real["accept_form"] = v["accept_form"]
             if v.get("path_vars"):
